@@ -26,6 +26,18 @@ def scenarios_for(pid, devs, rng, tier, shapes):
                     tgt = d.get("target", "s0")
                     dev = dict(d["dev"])
                     dev["stmt"] = tgt
+                    if dev["k"] == "eq_one_side_disclosed":
+                        # the verifier discloses, on one side, the very claim an equality statement refers to (the
+                        # repository's own tests use such schemas); the two signed values differ
+                        eqs = [x for x in s["stmts"] if x["k"] == "eq"]
+                        if not eqs or len(eqs[0]["refs"]) < 2:
+                            continue
+                        sid, ci = eqs[0]["refs"][-1]
+                        for st in s["stmts"]:
+                            if st["k"] == "sig" and st["id"] == sid:
+                                st["disclosed"] = sorted(set(st["disclosed"]) | {ci})
+                                cl = s["creds"][st["cred"]]["claims"]
+                                cl[ci] = cl[ci] + "x" if cl[ci].startswith("h:") else "n:%d" % (int(cl[ci][2:]) + 1)
                     if d.get("need_disclosed", 0):
                         # make sure the target (or the signature statement a targeted predicate refers to) discloses enough claims
                         sig_tgt = tgt
